@@ -6,7 +6,7 @@
    T, ns, NBATCH, nprocesses otherwise unbounded (the source has T = 1024). *)
 From Coq Require Import ZArith List Bool Lia Permutation.
 From IBL.lib Require Import PyInt.
-From IBL.C06 Require Import Model Proofs.
+From IBL.C06 Require Import Model Proofs SyncCast SyncProofs.
 Import ListNotations.
 Open Scope Z_scope.
 
@@ -154,6 +154,41 @@ Proof.
 Qed.
 Print Assumptions C06_more_workers_than_samples_refuted.
 
+(* 10. The saturation vector.  A worker assigns _saturation[first_s:last_s] once per batch, with
+   the verdict saturation() computes on the chunk as read (Model.sat_input_stage = Raw: the call
+   precedes the taper).  For ANY order of all workers' assignments, sample g of the recording ends
+   up holding the verdict of a batch k whose read range holds g — exactly the batches
+   sat_first g <= k <= sat_last g — at local index g - first_s(k); nothing outside [0, ns) is
+   assigned. *)
+Theorem C06_saturation_any_schedule : forall c sched g, dom c -> Permutation sched (all_sat_ops c) ->
+  (0 <= g < c_ns c ->
+     exists k, sat_first c g <= k <= sat_last c g /\ 0 <= sat_first c g /\ sat_last c g <= last_batch c /\
+       first_of c k <= g < last_of c k /\
+       sat_after sched g = Some (first_of c k, g - first_of c k)) /\
+  (~ 0 <= g < c_ns c -> sat_after sched g = None).
+Proof.
+  intros c sched g D Hp. destruct (sat_any_schedule c D sched g Hp) as [H1 H2]. split; [|exact H2].
+  intros Hg. destruct (H1 Hg) as (k & Hk & Hs). destruct (sat_range_nonempty c D g Hg) as (Ha & Hb).
+  exists k. repeat split; try lia; try exact Hs; apply (cover_iff c D k g ltac:(lia) Hg); exact Hk.
+Qed.
+Print Assumptions C06_saturation_any_schedule.
+
+(* 11. With one worker (sequential batch order) the LAST batch covering g wins: the saturation file
+   holds at g the verdict of batch min(last_batch, g div stride). *)
+Theorem C06_saturation_sequential : forall c g, dom c -> c_P c = 1 -> 0 <= g < c_ns c ->
+  sat_after (all_sat_ops c) g = Some (first_of c (sat_last c g), g - first_of c (sat_last c g)).
+Proof. intros c g D HP Hg. exact (sat_sequential c D g HP Hg). Qed.
+Print Assumptions C06_saturation_sequential.
+
+(* 12. The sync word's arithmetic path is the identity on every int16 value (IEEE-754, Flocq;
+   exhaustive kernel evaluation over the 65536 values in C06/SyncSweep.v):
+   int16 -> float32 (x 1.0f) -> float64 (np.r_ with the float64 chunk) -> x float64(1.0f/1.0f)
+   -> C cast to int16 gives the word back; with dtype=np.float32 the output is the word as float32. *)
+Theorem C06_sync_cast_exact : forall r, -32768 <= r <= 32767 ->
+  sync_i16 r = r /\ f32_parts (sync_f32 r) = f32_parts (z32 r).
+Proof. exact sync_exact. Qed.
+Print Assumptions C06_sync_cast_exact.
+
 (* The hypotheses are satisfiable on a concrete, non-trivial call: 12000 samples, batch 3000
    (stride 952, 11 batches), 3 workers, 5 padding samples, 65 int16 columns. *)
 Definition ex_cfg := mkCfg 1024 12000 3000 3 5 0 65 2 64 0 0.
@@ -177,4 +212,9 @@ Proof. vm_compute. reflexivity. Qed.
 Example ex_cell :
   file_after ex_cfg (all_ops ex_cfg) (2000 * 130 + 3) = Some (952, 1048, 3) /\
   file_after ex_cfg (rev (all_ops ex_cfg)) (2000 * 130 + 3) = Some (952, 1048, 3).
+Proof. vm_compute. split; reflexivity. Qed.
+(* saturation: sample 2000 is read by batches 0..2; one worker keeps batch 2's verdict *)
+Example ex_sat :
+  (sat_first ex_cfg 2000, sat_last ex_cfg 2000) = (0, 2) /\
+  sat_after (all_sat_ops (with_P ex_cfg 1)) 2000 = Some (1904, 96).
 Proof. vm_compute. split; reflexivity. Qed.
